@@ -53,7 +53,7 @@ PROPS["C02"] = dict(
          "non-trivial = encoding of at least 2 bytes; distinct = hash set of (type, encoding, suffix length)",
     assumptions=COMMON_ASSUMPTIONS,
     required=[("types_exercised", 200), ("spy_reads", 1000)],
-    stages=lambda tier: [native(), miri(shards=8, slow=400 if tier == "quick" else 3000)] + ([
+    stages=lambda tier: [native(), miri(shards=16, slow=600 if tier == "quick" else 60)] + ([
         asan(), valgrind(slow=60),
         miri(runtime="miri-s390x", name="miri-s390x", shards=8, slow=6000),
         miri(runtime="miri-i686", name="miri-i686", shards=8, slow=6000),
@@ -78,4 +78,140 @@ PROPS["C03"] = dict(
     stages=lambda tier: [native(), native(runtime="release", name="release", slow=2)] + ([
         asan(slow=8), miri(shards=8, slow=4000),
     ] if tier == "thorough" else []),
+)
+
+PROPS["C04"] = dict(
+    level="exploration",
+    rule="compact integers of width 8/16/32/64/128: all u8/u16 values, u32 values (stride 7 quick, ALL 2^32 thorough), class boundaries +-4096, "
+         "values with at most two non-zero byte lanes, random values; byte strings: every (first byte x top byte x fill x cut length), all 2-byte "
+         "strings, four-byte mode payloads (stride 7 / ALL 2^30) and 4-byte big-integer payloads (stride 13 / ALL 2^32), random / canonical+suffix / "
+         "truncated strings, each judged by all five decoders; every enumerated case is distinct by construction and counted as such, random cases "
+         "through a hash set; all are non-trivial (each compares real against the arithmetic model)",
+    assumptions=["the arithmetic model compact_encode/compact_decode in harness/monitor/src/model.rs is the definition quoted in the property"],
+    exhaustive_note="quick: all u8/u16 values, all byte strings of length <= 2, the full (tag x top byte x fill x length) grid. thorough additionally: "
+                    "all 2^32 u32 values, all 2^30 four-byte-mode payloads for the 16/32-bit decoders, all 2^32 five-byte big-integer strings for the "
+                    "32-bit decoder (counters *_exhaustive)",
+    required=[("values_u16_exhaustive", 65536), ("strings_len2_exhaustive", 65536), ("strings_tag_top_len", 100000), ("values_boundary", 1000)],
+    stages=lambda tier: [native(cpu=3000)],
+)
+
+PROPS["C07"] = dict(
+    level="exploration",
+    rule="(1) generated values of every universe type through encode / encode_to(Vec) / encode_to(dyn Output spy) / encode_to(short-writing io::Write) / "
+         "using_encoded / encoded_size; (2) twelve primitive element types x lengths 0..40 and around 1x,2x,3x 16 KiB/size x {Vec, slice, wrapped VecDeque, "
+         "arrays 0/1/32/33} against an element-wise twin, bytes and decode outcomes on valid/truncated/flipped/extended strings; non-trivial = encoding "
+         "of at least 2 bytes; distinct = hash set of (type or element type, bytes)",
+    assumptions=COMMON_ASSUMPTIONS + ["which path ran is read off the Output chunk trace / Input read trace: bulk = few large requests, element-wise = at least one request per element"],
+    required=[("types_exercised", 200), ("prims_with_bulk_write_and_read_observed", 12), ("array_cases", 100)],
+    stages=lambda tier: [native(), miri(shards=12, slow=150 if tier == "quick" else 20, args=["--mode", "bulk-only"])] + ([
+        asan(), valgrind(slow=40),
+        miri(runtime="miri-s390x", name="miri-s390x", shards=12, slow=1500, args=["--mode", "bulk-only"]),
+    ] if tier == "thorough" else []),
+)
+
+PROPS["C08"] = dict(
+    level="exploration",
+    rule="byte strings (valid, 4 mutations, truncation, 2 random) per decodable type, decoded from the plain slice (reference) and from 5 base inputs "
+         "(spy with known length, unknown length, IoReader<Cursor>, IoReader over a 1..9-byte short reader with Interrupted errors, &[u8]) under the "
+         "empty wrapper word plus 3 random words over {CountedInput, depth-limit(MAX), mem-limit(MAX)}* of length <= 3, and from decode_from_bytes; "
+         "non-trivial = non-empty string; distinct = hash set of (type, bytes)",
+    assumptions=COMMON_ASSUMPTIONS + ["only success/failure, value and bytes consumed on success are compared; error texts and consumption on failure are not"],
+    required=[("types_exercised", 200), ("distinct_stacks_seen", 150), ("zero_copy_observed", 50), ("accepted", 1000), ("rejected", 1000)],
+    stages=lambda tier: [native()] + ([miri(shards=8, slow=2000), asan(slow=6)] if tier == "thorough" else []),
+)
+
+PROPS["C10"] = dict(
+    level="fault_enumeration",
+    rule="for each of ~65 containers over an instrumented element type (arrays, Box/Rc/Arc, growing collections, tuples, derived struct/enum, "
+         "repr(transparent) newtypes, zero-sized elements, nested two deep) and several all-success inputs: EVERY element index x {malformed, panic}, "
+         "EVERY cut point (input exhausted), EVERY input request x {error, panic}, EVERY announced allocation as the one that trips the memory limit, "
+         "EVERY depth limit 0..=max; after each case the construction/drop ledger must balance. Non-trivial = at least one element had been "
+         "constructed when the fault hit; distinct = hash set of (type, input bytes, fault)",
+    assumptions=["the ledger sees instances of the instrumented element only; raw allocations made by the crate itself are watched by Miri, "
+                 "LeakSanitizer / AddressSanitizer (quick and thorough) and valgrind (thorough)"],
+    exhaustive_note="the fault grid per (container, all-success input) is enumerated completely; containers and inputs are a finite chosen list",
+    required=[("types_exercised", 55), ("fault_after_construction:malformed-element", 100), ("fault_after_construction:panic-in-element", 100),
+              ("fault_after_construction:exhausted", 100), ("fault_after_construction:panic-in-input", 100), ("fault_after_construction:mem-limit", 20),
+              ("fault_after_construction:depth-limit", 5), ("success_runs", 100)],
+    stages=lambda tier: [native(), miri(shards=16, slow=60 if tier == "quick" else 10), asan(slow=1)] + ([valgrind(slow=10)] if tier == "thorough" else []),
+)
+
+PROPS["C14"] = dict(
+    level="exploration",
+    rule="(1) every strict prefix (all cut points up to 512 bytes, sampled + structure boundaries beyond) of real encodings, through a slice and through "
+         "IoReader over a short reader; (2) concatenations of 2..50 values of mixed types decoded value by value from one input (known length, unknown "
+         "length, IoReader); (3) decode_all / decode_all_with_depth_limit(MAX) against decode + 'no input left' on valid, mutated, truncated and random "
+         "strings; non-trivial = encoding / concatenation of at least 2 bytes; distinct = hash set of (type, bytes)",
+    assumptions=COMMON_ASSUMPTIONS,
+    required=[("types_exercised", 200), ("prefixes", 10000), ("concatenations", 100), ("consume_all_accepted", 100), ("consume_all_rejected_trailing", 100)],
+    stages=lambda tier: [native()],
+)
+
+PROPS["C18"] = dict(
+    level="exploration",
+    rule="(1) DecodeLength::len on the real encoding of every generated value of the collection types and of tuples led by one (capability probed at "
+         "compile time), plus count-only encodings through all four compact modes up to 2^32-1; (2) skip vs decode on valid, mutated, truncated and "
+         "random strings of every decodable type, comparing success and input position; non-trivial = non-empty input; distinct = hash set of (type, bytes)",
+    assumptions=COMMON_ASSUMPTIONS,
+    required=[("types_exercised", 200), ("len_peeks", 1000), ("len_peeks:mode2", 10), ("len_peeks_count_only", 50), ("skip_on_accepted", 1000), ("skip_on_rejected", 1000)],
+    stages=lambda tier: [native()],
+)
+
+PROPS["C19"] = dict(
+    level="exploration",
+    rule="decodes of valid, mutated, truncated and random strings of every decodable type through CountedInput over a spy input, (a) plain, (b) with an "
+         "injected inner failure at request 0..5, (c) started near u64::MAX through the guarded hook; count() is compared with the spy's delivered "
+         "bytes after EVERY request (step checker above the counter) and at the end; non-trivial = non-empty input; distinct = hash set of (type, bytes, variant)",
+    assumptions=COMMON_ASSUMPTIONS + ["saturation is only reachable through the hook CountedInput::verif_with_count (cfg psc_verif)"],
+    required=[("types_exercised", 200), ("requests_checked", 100000), ("after_success", 1000), ("after_failure", 1000), ("cases_with_failed_reads", 1000),
+              ("saturated_cases", 1000), ("hook_available", 1)],
+    stages=lambda tier: [native()],
+)
+
+PROPS["C09"] = dict(
+    level="exploration",
+    rule="per container type: generated values, and for each count-prefix position (up to 5) hostile twins that differ only in the claimed count "
+         "(2^31 vs 2^32-1; 2^28 vs 2^29-1 for bit sequences; 2^14 vs 2^18 where elements may encode to nothing) x payloads {none, original tail, "
+         "16-64 KiB of repeated plausible elements} x inputs {slice, unknown length, decode_from_bytes}; each decode is bracketed by the counting "
+         "allocator (peak live bytes, largest single request). Non-trivial = hostile input whose claimed count exceeds what the payload can deliver; "
+         "distinct = hash set of (type, input bytes, input kind)",
+    assumptions=["oracle A (count independence): peak and largest request for the larger claimed count may exceed those for the smaller by at most 4 KiB",
+                 "oracle B (absolute): peak <= 8*alpha*delivered + levels*80 KiB + 8*size_of(T) + 8 KiB with alpha = max over container levels of "
+                 "element memory / minimal element encoding; kept because the honest+hostile corpus stays below 25% of it (worst ratio in the evidence)",
+                 "the counting allocator sees every heap request of the process; each shard is single-threaded"],
+    required=[("types_exercised", 100), ("hostile_pairs", 5000), ("hostile_rejected", 3000), ("via:Unknown", 1000), ("via:Shared", 1000),
+              ("hostile:bits", 100), ("hostile:str", 100), ("calibration_runs", 1)],
+    stages=lambda tier: [native(), native(runtime="release", name="release", slow=2)],
+)
+
+PROPS["C11"] = dict(
+    level="exploration",
+    rule="values of every decodable universe type (nesting Vec/Box/Rc/Arc/maps/sets/lists/deques/heaps/options/tuples, recursive derived types) x EVERY "
+         "limit 0..=depth_hi+2 through the native entry points and through wrapper layers between limiter and decoder, observed by a spy; hostile "
+         "strings x limits {0,1,2,3,MAX}; inputs nested 10^3..10^6 levels on a 2 MiB stack (release build). Non-trivial = value with container "
+         "nesting depth >= 2 (or a deep-nesting case); distinct = hash set of (type, bytes)",
+    assumptions=COMMON_ASSUMPTIONS + [
+        "depth_hi = longest chain of nested heap containers in the value; depth_lo = (longest chain of nested non-empty containers) - 1: the property "
+        "is read as 'element decoders are entered through more than L container levels', the reading under which the crate's own documented test "
+        "(4-level Vec<Vec<Vec<Vec<u8>>>> decodes with limit 3) satisfies it; the verdict uses only depth_lo <= threshold <= depth_hi",
+        "stack safety is observed on a fixed 2 MiB stack in the optimised build; a stack overflow kills the child and is attributed to the last case"],
+    required=[("types_exercised", 200), ("limit_sweeps", 50000), ("limited_ok", 10000), ("limited_err", 5000), ("deep_cases", 40), ("deep_rejected", 30), ("deep_ok", 4)],
+    stages=lambda tier: [native(), native(runtime="release", name="release-deep", shards=6, args=["--mode", "deep"], mem_gb=4)],
+)
+
+PROPS["C12"] = dict(
+    level="fault_enumeration",
+    rule="values of every DecodeWithMemTracking universe type (capability probed at compile time): tracked usage U measured through "
+         "MemTrackingInput(MAX) over a spy (hook conservation), then EVERY limit 0..=U+1 when U <= 4096 (each limit makes a different allocation the "
+         "failing one) and {0,1,U/2,U-1,U,U+1,2U,MAX} otherwise through decode_with_mem_limit, plus binding limits under/above other wrappers and "
+         "hostile strings x limits {0,1,64,4096,MAX}; U compared with the logical heap payload computed from the value by the bridge. "
+         "Non-trivial = value with U > 0; distinct = hash set of (type, bytes)",
+    assumptions=COMMON_ASSUMPTIONS + [
+        "payload = len*size_of(elem) for Vec/VecDeque/BinaryHeap/LinkedList/Cow<[T]>, size_of(T) for Box/Rc/Arc, byte length for String/Bytes, store bytes "
+        "for bit sequences, summed over nesting (exact part) + len*size_of((K,V)) for tree maps/sets (tree part); demanded: U >= exact + tree/2, and U = 0 "
+        "when the value owns no heap object"],
+    exhaustive_note="for every value with U <= 4096 the limit sweep 0..=U+1 is complete",
+    required=[("types_exercised", 180), ("limit_sweeps", 100000), ("values_with_positive_usage", 5000), ("values_with_zero_usage", 1000),
+              ("stacked_limits", 1000), ("saturation_cases", 1), ("hostile_limited", 10000)],
+    stages=lambda tier: [native()],
 )
